@@ -5,6 +5,7 @@
 
 """Click code for convert-dep5 subcommand."""
 
+import contextlib
 from typing import cast
 
 import click
@@ -33,11 +34,17 @@ def convert_dep5(obj: ClickObj) -> None:
 
     # Symbolic links are not followed: a linked REUSE.toml is not found as the
     # project's own later on, and writing to it changes a file elsewhere.
-    if (project.root / "REUSE.toml").is_symlink():
+    toml_path = project.root / "REUSE.toml"
+    if toml_path.is_symlink():
         raise click.UsageError(
-            _("'{path}' is a symbolic link.").format(
-                path=project.root / "REUSE.toml"
-            )
+            _("'{path}' is a symbolic link.").format(path=toml_path)
+        )
+    # A REUSE.toml that the project uses has been refused as a conflict by
+    # now. Anything else of that name - a directory, a named pipe - is not
+    # written to either.
+    if toml_path.exists():
+        raise click.UsageError(
+            _("'{path}' already exists.").format(path=toml_path)
         )
 
     text = toml_from_dep5(
@@ -55,5 +62,14 @@ def convert_dep5(obj: ClickObj) -> None:
             ).format(error=error)
         ) from error
     # REUSE.toml is read as UTF-8, whatever the locale says.
-    (project.root / "REUSE.toml").write_text(text, encoding="utf-8")
-    (project.root / ".reuse/dep5").unlink()
+    try:
+        toml_path.write_text(text, encoding="utf-8")
+        (project.root / ".reuse/dep5").unlink()
+    except OSError as error:
+        # A REUSE.toml - or half of one - next to the .reuse/dep5 that is still
+        # there is a conflict that stops every command.
+        with contextlib.suppress(OSError):
+            toml_path.unlink()
+        raise click.ClickException(
+            _("Could not convert '.reuse/dep5': {error}").format(error=error)
+        ) from error
